@@ -743,7 +743,81 @@ async fn c37_announce(ctx: Ctx) {
         ctx.violation("announce/setup-no-match", "no match");
         return;
     }
-    let which = ctx.choose(b'O', 3);
+    let which = ctx.choose(b'O', 7);
+    if which >= 3 {
+        // the other entities whose QoS travels in the announcements: reader, publisher, subscriber, topic
+        let (name, accepted): (&str, DdsResult<()>) = match which {
+            3 => {
+                let mut q = r.get_qos().await.unwrap();
+                q.user_data.value = vec![4, 5, 6];
+                let s = r.set_qos(QosKind::Specific(q.clone())).await;
+                if s.is_ok() && r.get_qos().await.unwrap() != q {
+                    ctx.violation("announce/get_qos-differs/reader", "get_qos differs from the accepted QoS");
+                }
+                ("reader.user_data", s)
+            }
+            4 => {
+                let mut q = n1.publisher.get_qos().await.unwrap();
+                q.group_data.value = vec![7, 8];
+                let s = n1.publisher.set_qos(QosKind::Specific(q.clone())).await;
+                if s.is_ok() && n1.publisher.get_qos().await.unwrap() != q {
+                    ctx.violation("announce/get_qos-differs/publisher", "get_qos differs from the accepted QoS");
+                }
+                ("publisher.group_data", s)
+            }
+            5 => {
+                let mut q = n2.subscriber.get_qos().await.unwrap();
+                q.group_data.value = vec![9];
+                let s = n2.subscriber.set_qos(QosKind::Specific(q.clone())).await;
+                if s.is_ok() && n2.subscriber.get_qos().await.unwrap() != q {
+                    ctx.violation("announce/get_qos-differs/subscriber", "get_qos differs from the accepted QoS");
+                }
+                ("subscriber.group_data", s)
+            }
+            _ => {
+                let mut q = n1.topic.get_qos().await.unwrap();
+                q.topic_data.value = vec![1, 1];
+                let s = n1.topic.set_qos(QosKind::Specific(q.clone())).await;
+                if s.is_ok() && n1.topic.get_qos().await.unwrap() != q {
+                    ctx.violation("announce/get_qos-differs/topic", "get_qos differs from the accepted QoS");
+                }
+                ("topic.topic_data", s)
+            }
+        };
+        if accepted.is_err() {
+            ctx.violation(format!("announce/mutable-change-rejected/{name}/{}", err_name(&accepted)), "a changeable policy was rejected on an enabled entity");
+            return;
+        }
+        let seen = poll_until(&ctx, 20, 1500, || async {
+            match which {
+                3 | 5 => {
+                    for h in w.get_matched_subscriptions().await.unwrap_or_default() {
+                        if let Ok(d) = w.get_matched_subscription_data(h).await {
+                            if (which == 3 && d.user_data().value == vec![4, 5, 6]) || (which == 5 && d.group_data().value == vec![9]) {
+                                return true;
+                            }
+                        }
+                    }
+                    false
+                }
+                _ => {
+                    for h in r.get_matched_publications().await.unwrap_or_default() {
+                        if let Ok(d) = r.get_matched_publication_data(h).await {
+                            if (which == 4 && d.group_data().value == vec![7, 8]) || (which == 6 && d.topic_data().value == vec![1, 1]) {
+                                return true;
+                            }
+                        }
+                    }
+                    false
+                }
+            }
+        })
+        .await;
+        if !seen {
+            ctx.violation(format!("announce/not-announced/{name}"), format!("the accepted change of {name} never became visible in the matched endpoint data of the remote participant"));
+        }
+        return;
+    }
     let mut q = w.get_qos().await.unwrap();
     match which {
         0 => q.user_data.value = vec![1, 2, 3],
